@@ -136,7 +136,7 @@ class RefModel:
             yt = np.array(t["y"], dtype=float)
             wt = None if t["w"] is None else np.array(t["w"], dtype=float)
             if kind in ("fit", "prefit"):
-                clf.fit(Xt, yt, wt) if wt is not None else clf.fit(Xt, yt)
+                clf.fit(Xt, yt, sample_weight=wt) if wt is not None else clf.fit(Xt, yt)
             else:
                 clf.partial_fit(Xt, yt, sample_weight=wt) if wt is not None else clf.partial_fit(Xt, yt)
         return clf
@@ -227,7 +227,7 @@ class C19Check(Check):
         pre = sc.get("prefit")
         if pre is not None:
             idx = pre["idx"]
-            clf.fit(X[idx], y[idx], w[idx]) if w is not None else clf.fit(X[idx], y[idx])
+            clf.fit(X[idx], y[idx], sample_weight=w[idx]) if w is not None else clf.fit(X[idx], y[idx])
         f = sc["flags"]
         return IndexClassifierWrapper(
             clf,
